@@ -250,7 +250,8 @@ def run(repo: Repo, rep: Report, tier: str) -> None:
 
     # ---------------- R6 ---------------------------------------------------------------
     from .shared import borrow as _borrow17
-    _borrow17(repo, rep, "C01", "C01-R10", "C17-R6", "library functions written with `cond : <constant expression>` return that constant: an inlined literal output is not a copy-count output", floor=2)
+    _borrow17(repo, rep, "C01", "C01-R10", "C17-R6", "library functions written with `cond : <constant expression>` return that constant: an inlined literal output is not a copy-count output",
+              select=lambda o: "only when the output value stays a signal" in o.construct, floor=2)
 
 
 
